@@ -226,9 +226,10 @@ End Traversals.
 
 (* ---- embedded transformer: Lark(..., parser='lalr', transformer=T) ------------------------- *)
 (* rule callbacks go through the same wrapper chain; terminal callbacks are applied when the
-   token is shifted (lalr_parser_state.py: callbacks[token.type](token)) *)
-Definition embedded_run (T : transformer) (mp : bool) (l : list action) : option (list value) :=
-  run_actions value VNone vkids (on_rule T) VTree (call_token T) mp [] l.
+   token is shifted (lalr_parser_state.py: callbacks[token.type](token)); _get_lexer_callbacks installs
+   them only when the transformer's __visit_tokens__ is true *)
+Definition embedded_run (T : transformer) (vt mp : bool) (l : list action) : option (list value) :=
+  run_actions value VNone vkids (on_rule T) VTree (visit_tok T vt) mp [] l.
 
-Definition embedded (T : transformer) (mp : bool) (d : dtree) : option value :=
-  eval value VNone vkids (on_rule T) VTree (call_token T) mp d.
+Definition embedded (T : transformer) (vt mp : bool) (d : dtree) : option value :=
+  eval value VNone vkids (on_rule T) VTree (visit_tok T vt) mp d.
